@@ -44,12 +44,16 @@ inductive Fault where
 inductive Transport where
   | resp (status : Int) (body : Body)
   | fault (f : Fault)
+  | respErr (status : Int)
+      -- `client.Do` returned a response AND an error: the documented behaviour when a CheckRedirect
+      -- policy refuses a redirect with an error of its own (the 3xx response comes with its body closed)
   deriving Repr, DecidableEq, Inhabited
 
 inductive ErrKind where
   | client | server | notSupported    -- the three `fmt.Errorf` of the switch
   | decode                            -- the json decoder's error, passed on
   | transport (f : Fault)             -- the error of `client.Do`, passed on unchanged
+  | redirect                          -- the CheckRedirect policy's error (inside `client.Do`'s *url.Error), passed on unchanged
   deriving Repr, DecidableEq, Inhabited
 
 /-- an error value: its kind and which of status / body text its message carries -/
@@ -123,6 +127,7 @@ def tail (shape : Shape) (b : Body) : Ret :=
 /-- one generated method from `c.client.Do` on -/
 def call (shape : Shape) : Transport → Ret
   | .fault f => ⟨nilResult shape, false, some ⟨.transport f, false, false⟩⟩
+  | .respErr _ => ⟨nilResult shape, false, some ⟨.redirect, false, false⟩⟩   -- `if err != nil { return nil…, err }`: resp_ is dropped
   | .resp s b =>
     match switchErr s with
     | some e => ⟨nilResult shape, true, some e⟩
